@@ -26,6 +26,15 @@
     `load_after_oversized_csize` (Hv/Storage/TornLemmas.lean) prove that a damaged size field in the
     MIDDLE of a file makes `LoadIndex` return the blocks before it, drop every intact block after
     it, and report nothing.  What is returned is still only what was written (`sound`).
+    The same holds for the two zero-filled-tail rules (facts `zeroSizeIsEOF`, `zeroTailIsEOF`): a
+    zero size field, and a block that does not parse, ends in a zero byte and has only zero bytes
+    behind it, end the data without an error.  `load_stops_at_eof` is the prefix property of every
+    clean end (the result is exactly the replay of the written blocks before it),
+    `load_zero_filled_tail` instantiates it for written blocks followed by any number of zero
+    bytes, and `zeroTail_only_drops` says the rules only turn a refusal into an end — they never
+    make the reader return an entry.  With `zeroTailIsEOF` a checksum mismatch in the LAST block
+    whose payload happens to end in a zero byte is therefore not reported
+    (`readNextBlock_crc_mismatch` vs `_strict`).
   * scope — `Holds` is about `NewFileReader` + `LoadIndex`.  `ScanBlockHeaders` (`scanHeaders`) and the
     writer's torn-tail walk (`walkEnd`) are structurally recursive on explicit fuel `len/16+1` and
     allocate one 16-byte buffer; `ReadSwampName` is `openReader` (+ `LoadIndex` for V2).
@@ -111,7 +120,8 @@ theorem forgedSizeFile_length : forgedSizeFile.length = 80 := by
   simp [forgedSizeFile, encodeFileHeader_length, encodeBlockHeader_length]
 
 theorem loadAllocLoop_eof (cfg : Cfg) (d : Decoder) (crc : Checksum) (rest : Bytes)
-    (h : readNextBlock cfg d crc rest = .eof) : loadAllocLoop cfg d crc rest = blockAlloc cfg d crc rest := by
+    (h : readNextBlock cfg d crc rest = .eof) :
+    loadAllocLoop cfg d crc rest = blockAlloc cfg d crc rest + zeroScanAlloc cfg := by
   rw [loadAllocLoop]
   split
   · rfl
@@ -119,7 +129,8 @@ theorem loadAllocLoop_eof (cfg : Cfg) (d : Decoder) (crc : Checksum) (rest : Byt
   · rename_i h'; rw [h] at h'; cases h'
 
 theorem loadAllocLoop_err (cfg : Cfg) (d : Decoder) (crc : Checksum) (rest : Bytes) (e : Err)
-    (h : readNextBlock cfg d crc rest = .err e) : loadAllocLoop cfg d crc rest = blockAlloc cfg d crc rest := by
+    (h : readNextBlock cfg d crc rest = .err e) :
+    loadAllocLoop cfg d crc rest = blockAlloc cfg d crc rest + zeroScanAlloc cfg := by
   rw [loadAllocLoop]
   split
   · rfl
@@ -129,7 +140,7 @@ theorem loadAllocLoop_err (cfg : Cfg) (d : Decoder) (crc : Checksum) (rest : Byt
 /-- without the bounds check the reader asks for 4 GiB to load this 80-byte file — before it has
     read a single byte of block data, and it then reports a clean EOF (no error at all) -/
 theorem forgedSize_allocates (cfg : Cfg) (hb : cfg.boundsCompressedSize = false) (d : Decoder) (crc : Checksum) :
-    loadAlloc cfg d crc forgedSizeFile = 64 + 0 + (16 + 4294967295) ∧
+    64 + 0 + (16 + 4294967295) ≤ loadAlloc cfg d crc forgedSizeFile ∧
     loadIndex cfg d crc forgedSizeFile = .ok ([], []) := by
   have hopen : openReader forgedSizeFile = .ok ⟨hdr0, []⟩ :=
     openReader_prefix hdr0 [] _ hdr0_valid (Or.inl ⟨rfl, rfl⟩)
@@ -142,7 +153,8 @@ theorem forgedSize_allocates (cfg : Cfg) (hb : cfg.boundsCompressedSize = false)
   have hafter : (encodeBlockHeader ⟨4294967295, 0, 0, 0, 0⟩).drop 16 = [] := by
     apply List.drop_eq_nil_of_le; omega
   have hnb : readNextBlock cfg d crc (encodeBlockHeader ⟨4294967295, 0, 0, 0, 0⟩) = .eof := by
-    unfold readNextBlock
+    apply readNextBlock_of_core_eof
+    unfold readNextBlockCore
     simp only [shorterThan_eq, decide_eq_true_eq, hlen, hdec, hafter]
     simp
   constructor
@@ -153,6 +165,7 @@ theorem forgedSize_allocates (cfg : Cfg) (hb : cfg.boundsCompressedSize = false)
     unfold blockAlloc
     simp only [shorterThan_eq, decide_eq_true_eq, hlen, hdec, hafter, hb]
     simp [hdr0, initHdr]
+    omega
   · unfold loadIndex
     rw [hopen]
     simp only
@@ -165,7 +178,8 @@ theorem not_holds_of_unboundedCompressedSize (cfg : Cfg) (hb : cfg.boundsCompres
   intro hh
   have h1 := hh.alloc idCodec.toDecoder crc0 forgedSizeFile
     (by intro c u h; simp [idCodec] at h; subst h; simp [idCodec])
-  rw [(forgedSize_allocates cfg hb idCodec.toDecoder crc0).1, forgedSizeFile_length] at h1
+  have h2 := (forgedSize_allocates cfg hb idCodec.toDecoder crc0).1
+  rw [forgedSizeFile_length] at h1
   omega
 
 /-- a decoder that declares 4 GiB for every input and then fails (as snappy does on a forged
@@ -191,9 +205,13 @@ theorem not_holds_of_unboundedDecodedLen (cfg : Cfg) (hb : cfg.boundsDecodedLen 
   have hafter : (encodeBlockHeader ⟨1, 0, 0, 0, 0⟩ ++ [0xff]).drop 16 = [0xff] :=
     drop_append_len _ _ 16 (encodeBlockHeader_length _)
   have hnb : readNextBlock cfg greedyDecoder crc0 (encodeBlockHeader ⟨1, 0, 0, 0, 0⟩ ++ [0xff]) = .err .snappy := by
+    have hcore : readNextBlockCore cfg greedyDecoder crc0 (encodeBlockHeader ⟨1, 0, 0, 0, 0⟩ ++ [0xff]) = .err .snappy := by
+      unfold readNextBlockCore
+      simp only [shorterThan_eq, decide_eq_true_eq, hlen, hdec, hafter]
+      simp [parseBlock, crc0, hb, greedyDecoder]
     unfold readNextBlock
-    simp only [shorterThan_eq, decide_eq_true_eq, hlen, hdec, hafter]
-    simp [parseBlock, crc0, hb, greedyDecoder]
+    rw [hcore, hdec, hafter]
+    simp [zeroTail]
   have hge : 4294967295 ≤ loadAlloc cfg greedyDecoder crc0 forgedLenFile := by
     unfold loadAlloc
     rw [hopen]
@@ -202,6 +220,7 @@ theorem not_holds_of_unboundedDecodedLen (cfg : Cfg) (hb : cfg.boundsDecodedLen 
     unfold blockAlloc
     simp only [shorterThan_eq, decide_eq_true_eq, hlen, hdec, hafter]
     simp [parseAlloc, crc0, hb, greedyDecoder]
+    omega
   omega
 
 /-- a block whose stored checksum does not match, accepted when `ParseBlock` skips the check -/
@@ -226,7 +245,8 @@ theorem not_holds_of_noCrc (cfg : Cfg) (hb : cfg.validatesCrc = false) : ¬ Hold
   have hdrop : (encodeEntry oneEntry).drop 8 = [] := List.drop_eq_nil_of_le (by omega)
   have hne : encodeEntry oneEntry ≠ [] := by intro h; rw [h] at hel; simp at hel
   have hnb : readNextBlock cfg idCodec.toDecoder crcOne badCrcBlock = .ok [oneEntry] [] := by
-    unfold readNextBlock
+    apply readNextBlock_of_core_ok _ (by rw [hdec]; intro _; decide)
+    unfold readNextBlockCore
     simp only [shorterThan_eq, decide_eq_true_eq, hlen, hdec, hafter, hel]
     have hsz : sizeSum [oneEntry] = 8 := by simp [sizeSum, Entry.size, oneEntry]
     simp [parseBlock, finishParse, hsz, hb, idCodec, hel, hpe, htake, hdrop, hne]
@@ -252,7 +272,8 @@ theorem not_holds_of_noULen (cfg : Cfg) (hb : cfg.validatesULen = false) : ¬ Ho
   have hdrop : (encodeEntry oneEntry).drop 8 = [] := List.drop_eq_nil_of_le (by omega)
   have hne : encodeEntry oneEntry ≠ [] := by intro h; rw [h] at hel; simp at hel
   have hnb : readNextBlock cfg idCodec.toDecoder crc0 badLenBlock = .ok [oneEntry] [] := by
-    unfold readNextBlock
+    apply readNextBlock_of_core_ok _ (by rw [hdec]; intro _; decide)
+    unfold readNextBlockCore
     simp only [shorterThan_eq, decide_eq_true_eq, hlen, hdec, hafter, hel]
     have hsz : sizeSum [oneEntry] = 8 := by simp [sizeSum, Entry.size, oneEntry]
     simp [parseBlock, finishParse, hsz, hb, idCodec, hel, hpe, crc0, htake, hdrop, hne]
@@ -287,7 +308,8 @@ theorem not_holds_of_trailingIgnored (cfg : Cfg) (hb : cfg.parseConsumesAll = fa
   have hdrop : (encodeEntry oneEntry ++ encodeEntry delEntry).drop 16 = [] := List.drop_eq_nil_of_le (by omega)
   have hne : encodeEntry oneEntry ++ encodeEntry delEntry ≠ [] := by intro h; rw [h] at hel; simp at hel
   have hnb : readNextBlock cfg idCodec.toDecoder crc0 lowCountBlock = .ok [oneEntry] [] := by
-    unfold readNextBlock
+    apply readNextBlock_of_core_ok _ (by rw [hdec]; intro _; decide)
+    unfold readNextBlockCore
     simp only [shorterThan_eq, decide_eq_true_eq, hlen, hdec, hafter, hel]
     simp [parseBlock, finishParse, hb, idCodec, hel, hpe, crc0, htake, hdrop, hne]
   obtain ⟨_, u, hu, _, _, hsz⟩ := hh.sound idCodec.toDecoder crc0 lowCountBlock [oneEntry] [] hnb
@@ -330,6 +352,12 @@ structure Facts where
   /-- a cut-short payload ends the data (`io.EOF`) at both sites (`yes`), fails the load at both
       (`no`); `unknown` when the size pre-check and the `ReadFull` mapping disagree -/
   shortPayloadIsEOF : Tri
+  /-- `readNextBlock` returns `io.EOF` for a header whose `CompressedSize` is 0, before anything is
+      allocated or read for the block -/
+  zeroSizeIsEOF : Tri
+  /-- a `ParseBlock` error is turned into `io.EOF` when `zeroFilledTail` holds (payload ends in a
+      zero byte, only zero bytes up to the end of the file) -/
+  zeroTailIsEOF : Tri
   deriving Repr
 
 def cfgOf (f : Facts) : Cfg :=
@@ -339,7 +367,9 @@ def cfgOf (f : Facts) : Cfg :=
     boundsCompressedSize := f.boundsCompressedSize.isYes
     boundsDecodedLen := f.boundsDecodedLen.isYes
     parseConsumesAll := f.parseConsumesAll.isYes
-    shortPayloadIsEOF := f.shortPayloadIsEOF.isYes }
+    shortPayloadIsEOF := f.shortPayloadIsEOF.isYes
+    zeroSizeIsEOF := f.zeroSizeIsEOF.isYes
+    zeroTailIsEOF := f.zeroTailIsEOF.isYes }
 
 /-- the parts of the reader the model hard-wires -/
 def shapeOk (f : Facts) : Bool :=
@@ -351,6 +381,10 @@ def hasUnknown (f : Facts) : Bool :=
   f.validatesCrc == .unknown || f.validatesULen == .unknown || f.boundsCompressedSize == .unknown ||
   f.boundsDecodedLen == .unknown || f.parseConsumesAll == .unknown || f.shortPayloadIsEOF == .unknown
 
+/-- the two end-of-data rules for a zero-filled tail: both values are covered by the theorems, an
+    unrecognised shape is not -/
+def zeroUnknown (f : Facts) : Bool := f.zeroSizeIsEOF == .unknown || f.zeroTailIsEOF == .unknown
+
 def findings (f : Facts) : List String :=
   (if f.validatesCrc == .no then ["C04-checksum-not-validated"] else []) ++
   (if f.validatesULen == .no then ["C04-decoded-length-not-validated"] else []) ++
@@ -360,6 +394,7 @@ def findings (f : Facts) : List String :=
 
 def classify (f : Facts) : Verdict :=
   if !shapeOk f then .undetermined "reader shape facts (magic/version check, entry bounds checks, short header = EOF, CRC before decompress) differ from the model"
+  else if zeroUnknown f then .undetermined "the zero-size / zero-filled-tail handling of readNextBlock was not recognised"
   else if hasUnknown f then .undetermined "a ParseBlock / readNextBlock pattern was not recognised"
   else if !(findings f).isEmpty then .violated (findings f)
   else .holds
@@ -370,30 +405,32 @@ theorem classify_sound (f : Facts) : (classify f).Sound (Holds (cfgOf f)) (Holds
   · trivial
   · split
     · trivial
-    · rename_i hu
-      simp only [hasUnknown, Bool.or_eq_true, beq_iff_eq, not_or] at hu
-      obtain ⟨⟨⟨⟨⟨hu1, hu2⟩, hu3⟩, hu4⟩, hu5⟩, _⟩ := hu
-      split
-      · rename_i hf
-        refine ⟨?_, holds_partial _⟩
-        by_cases h1 : f.validatesCrc = .no
-        · exact not_holds_of_noCrc _ (by simp [cfgOf, h1, Tri.isYes])
-        · by_cases h2 : f.validatesULen = .no
-          · exact not_holds_of_noULen _ (by simp [cfgOf, h2, Tri.isYes])
-          · by_cases h3 : f.boundsCompressedSize = .no
-            · exact not_holds_of_unboundedCompressedSize _ (by simp [cfgOf, h3, Tri.isYes])
-            · by_cases h4 : f.boundsDecodedLen = .no
-              · exact not_holds_of_unboundedDecodedLen _ (by simp [cfgOf, h4, Tri.isYes])
-              · by_cases h5 : f.parseConsumesAll = .no
-                · exact not_holds_of_trailingIgnored _ (by simp [cfgOf, h5, Tri.isYes])
-                · exfalso; simp [findings, h1, h2, h3, h4, h5] at hf
-      · rename_i hf
-        have h1 : f.validatesCrc = .yes := by cases h : f.validatesCrc <;> simp_all [findings]
-        have h2 : f.validatesULen = .yes := by cases h : f.validatesULen <;> simp_all [findings]
-        have h3 : f.boundsCompressedSize = .yes := by cases h : f.boundsCompressedSize <;> simp_all [findings]
-        have h4 : f.boundsDecodedLen = .yes := by cases h : f.boundsDecodedLen <;> simp_all [findings]
-        have h5 : f.parseConsumesAll = .yes := by cases h : f.parseConsumesAll <;> simp_all [findings]
-        exact holds_of_good _ ⟨by simp [cfgOf, h1, Tri.isYes], by simp [cfgOf, h2, Tri.isYes],
-          by simp [cfgOf, h3, Tri.isYes], by simp [cfgOf, h4, Tri.isYes], by simp [cfgOf, h5, Tri.isYes]⟩
+    · split
+      · trivial
+      · rename_i hu
+        simp only [hasUnknown, Bool.or_eq_true, beq_iff_eq, not_or] at hu
+        obtain ⟨⟨⟨⟨⟨hu1, hu2⟩, hu3⟩, hu4⟩, hu5⟩, _⟩ := hu
+        split
+        · rename_i hf
+          refine ⟨?_, holds_partial _⟩
+          by_cases h1 : f.validatesCrc = .no
+          · exact not_holds_of_noCrc _ (by simp [cfgOf, h1, Tri.isYes])
+          · by_cases h2 : f.validatesULen = .no
+            · exact not_holds_of_noULen _ (by simp [cfgOf, h2, Tri.isYes])
+            · by_cases h3 : f.boundsCompressedSize = .no
+              · exact not_holds_of_unboundedCompressedSize _ (by simp [cfgOf, h3, Tri.isYes])
+              · by_cases h4 : f.boundsDecodedLen = .no
+                · exact not_holds_of_unboundedDecodedLen _ (by simp [cfgOf, h4, Tri.isYes])
+                · by_cases h5 : f.parseConsumesAll = .no
+                  · exact not_holds_of_trailingIgnored _ (by simp [cfgOf, h5, Tri.isYes])
+                  · exfalso; simp [findings, h1, h2, h3, h4, h5] at hf
+        · rename_i hf
+          have h1 : f.validatesCrc = .yes := by cases h : f.validatesCrc <;> simp_all [findings]
+          have h2 : f.validatesULen = .yes := by cases h : f.validatesULen <;> simp_all [findings]
+          have h3 : f.boundsCompressedSize = .yes := by cases h : f.boundsCompressedSize <;> simp_all [findings]
+          have h4 : f.boundsDecodedLen = .yes := by cases h : f.boundsDecodedLen <;> simp_all [findings]
+          have h5 : f.parseConsumesAll = .yes := by cases h : f.parseConsumesAll <;> simp_all [findings]
+          exact holds_of_good _ ⟨by simp [cfgOf, h1, Tri.isYes], by simp [cfgOf, h2, Tri.isYes],
+            by simp [cfgOf, h3, Tri.isYes], by simp [cfgOf, h4, Tri.isYes], by simp [cfgOf, h5, Tri.isYes]⟩
 
 end Hv.C04
